@@ -25,7 +25,7 @@ INITS = [
     ('env', r'\begin{e}{a}x\end{e}'),
     ('item', r'\item[b]x'),
 ]
-POOL = ['{a}', '[b]', '{c}']
+POOL = ['{a}', '[b]', '{{c}}']        # the third one has a nested group: only one closing delimiter may be cut off
 BAD = ['{a]', '[a', 'x', '', 'a}']
 
 
@@ -66,12 +66,12 @@ class System:
         ops = []
         for how in ('str', 'obj'):
             ops += [('append', how, g) for g in POOL]
-        ops += [('extend', 'str', '{a}', '[b]'), ('extend', 'obj', '{c}', '{a}'), ('extend', 'str')]
+        ops += [('extend', 'str', '{a}', '[b]'), ('extend', 'obj', '{{c}}', '{a}'), ('extend', 'str')]
         if 0 < n <= 3:
             ops += [('extend_self',)]
         for i in range(-n - 2, n + 3):
             ops += [('insert', i, 'str', '[b]'), ('insert', i, 'obj', '{a}')]
-        ops += [('insert', 0, 'str', '{c}'), ('insert', n, 'obj', '{c}')]
+        ops += [('insert', 0, 'str', '{{c}}'), ('insert', n, 'obj', '{{c}}')]
         for how in ('str', 'obj'):
             ops += [('remove', how, g) for g in POOL]
         ops += [('pop',)] + [('pop', i) for i in range(-n - 1, n + 2)]
@@ -80,7 +80,7 @@ class System:
         ops += [('slice', i, j) for i in range(0, n + 1) for j in range(i, n + 2)]
         ops += [('slice', None, None, -1), ('slice', -1, None), ('slice', None, -1), ('slice', None, None, 2)]
         ops += [('bad', 'append', b) for b in BAD] + [('bad', 'insert0', b) for b in BAD[:3]] + \
-               [('bad', 'remove', b) for b in BAD[:3]] + [('bad', 'extend', '{c}', '[a')]
+               [('bad', 'remove', b) for b in BAD[:3]] + [('bad', 'extend', '{{c}}', '[a')]
         ops += [('ws', 'append', ' '), ('ws', 'insert0', '\n')]
         if n:
             ops += [('setrev',), ('setslice', 0, n - 1), ('setslice', 1, n)]
